@@ -402,16 +402,17 @@ class Colorizer:
             parser.feed(literal_text, raw=recursive)
 
             if field_name is not None:
-                if field_name == "":
+                first_component = re.split(r"[.\[]", field_name, maxsplit=1)[0]
+                if first_component == "":
                     if auto_arg_index is False:
                         raise ValueError(
                             "cannot switch from manual field "
                             "specification to automatic field "
                             "numbering"
                         )
-                    field_name = str(auto_arg_index)
+                    field_name = str(auto_arg_index) + field_name
                     auto_arg_index += 1
-                elif field_name.isdigit():
+                elif first_component.isdigit():
                     if auto_arg_index:
                         raise ValueError(
                             "cannot switch from manual field "
